@@ -3,11 +3,13 @@
 import json, os, glob, re
 HERE = os.path.dirname(os.path.dirname(os.path.abspath(__file__)))
 s = open(os.path.join(HERE, "DESIGN.md")).read()
-rows = ["| id | tier / seed | cases | distinct non-trivial | wall | deciding-monitor evaluations (measured by the run) |", "|----|----|----|----|----|----|"]
+rows = ["| id | tier / seed | cases | distinct non-trivial | wall | anchored functions executed | deciding-monitor evaluations (measured by the run) |", "|----|----|----|----|----|----|----|"]
 for f in sorted(glob.glob(os.path.join(HERE, "evidence", "C*.json"))):
     d = json.load(open(f)); c = d["coverage"]
     mon = ", ".join(f"{k} {v}" for k, v in sorted(c.get("monitor_evaluations", {}).items(), key=lambda kv: -kv[1])[:6])
-    rows.append(f"| {d['property_id']} | {d['tier']} / {d['seed']} | {c['evaluations']} | {c['distinct_nontrivial']} | {d['wall_s']:.0f} s | {mon} |")
+    lr = c.get("library_reach", {})
+    reach = f"{lr.get('anchored_functions_executed', '?')} / {lr.get('anchored_functions_defined', '?')}"
+    rows.append(f"| {d['property_id']} | {d['tier']} / {d['seed']} | {c['evaluations']} | {c['distinct_nontrivial']} | {d['wall_s']:.0f} s | {reach} | {mon} |")
 block = "Measured on the unchanged (repaired) tree by the last committed runs (`evidence/*.json`; 16 cores):\n\n" + "\n".join(rows) + "\n"
 s = re.sub(r"<!-- MEASURED-TABLE-BEGIN -->.*?<!-- MEASURED-TABLE-END -->", "<!-- MEASURED-TABLE-BEGIN -->\n" + block + "<!-- MEASURED-TABLE-END -->", s, flags=re.S)
 mp = os.path.join(HERE, "seeded", "MATRIX.json")
